@@ -151,6 +151,7 @@ func (e *Encoder) buildResource(builder *rdfdescription.ResourceListBuilder, res
 	for _, statement := range resource.GetResourceStatements() {
 		var statementObject any
 		var predicate rdf.IRI
+		var typeKeyword bool
 
 		switch statementT := statement.(type) {
 		case rdfdescription.AnonResourceStatement:
@@ -176,6 +177,7 @@ func (e *Encoder) buildResource(builder *rdfdescription.ResourceListBuilder, res
 				}
 
 				if predicate == rdfiri.Type_Property {
+					typeKeyword = true
 					statementObject = wrapID
 				} else {
 					statementObject = map[string]any{
@@ -183,8 +185,13 @@ func (e *Encoder) buildResource(builder *rdfdescription.ResourceListBuilder, res
 					}
 				}
 			case rdf.BlankNode:
-				statementObject = map[string]any{
-					"@id": "_:" + e.bnStringProvider.GetBlankNodeString(obj),
+				if predicate == rdfiri.Type_Property {
+					typeKeyword = true
+					statementObject = "_:" + e.bnStringProvider.GetBlankNodeString(obj)
+				} else {
+					statementObject = map[string]any{
+						"@id": "_:" + e.bnStringProvider.GetBlankNodeString(obj),
+					}
 				}
 			case rdf.Literal:
 				switch obj.Datatype {
@@ -244,7 +251,8 @@ func (e *Encoder) buildResource(builder *rdfdescription.ResourceListBuilder, res
 
 		var key string = string(predicate)
 
-		if predicate == rdfiri.Type_Property {
+		// @type holds IRIs and blank node identifiers; any other object of rdf:type stays an ordinary property
+		if typeKeyword {
 			key = "@type"
 		} else if pr, ok := e.prefixes.CompactPrefix(string(predicate)); ok {
 			key = pr.String()
